@@ -1,9 +1,11 @@
 package main
 
 import (
+	"bytes"
 	"context"
 	"fmt"
 	"path/filepath"
+	"runtime"
 	"strconv"
 	"strings"
 	"sync"
@@ -357,6 +359,25 @@ func stressConservation(c *ctx, nworkers, tick int, dur time.Duration) rTrace {
 
 // stressUsable: every tick requests one job per worker and the bodies only finish once ALL workers
 // are executing at the same time; a stranded (lost wake-up) worker makes a round time out.
+// stressPoolState reads the goroutine dump: worker goroutines of the trigger pool parked in waitForNewJobs, worker
+// goroutines alive at all, and stress bodies executing (inside the scenario function)
+func stressPoolState() (parked, alive, bodies int) {
+	buf := make([]byte, 4<<20)
+	n := runtime.Stack(buf, true)
+	for _, g := range bytes.Split(buf[:n], []byte("\n\n")) {
+		if bytes.Contains(g, []byte("workers.(*TriggerPool).run")) {
+			alive++
+			if bytes.Contains(g, []byte("workers.(*TriggerPool).waitForNewJobs")) && bytes.Contains(g, []byte("sync.(*Cond).Wait")) {
+				parked++
+			}
+			if bytes.Contains(g, []byte("main.stressUsable.func")) {
+				bodies++
+			}
+		}
+	}
+	return parked, alive, bodies
+}
+
 func stressUsable(c *ctx, nworkers int, dur time.Duration) rTrace {
 	tr := rTrace{Cfg: rCfg{Name: "pool-stress-usable", Mode: "constant", RateMode: true, Conc: nworkers, MaxDurUs: 1_000_000_000,
 		WaitUs: 1_000_000, PoolOnly: true, Light: true, Rendezvous: true, Args: fmt.Sprintf("workers=%d dur=%s", nworkers, dur)}}
@@ -406,7 +427,28 @@ func stressUsable(c *ctx, nworkers int, dur time.Duration) rTrace {
 		case <-g:
 			rounds++
 		case <-time.After(2 * time.Second):
-			ok = false
+			// A round that does not complete is a verdict only if the pool's own state says why: workers parked in
+			// waitForNewJobs (or gone) while fewer than `concurrency` bodies are executing, twice 300 ms apart. Otherwise
+			// (every body is in fact waiting at the gate, or goroutines are still on their way) the machine was too slow
+			// for this round and the trace says so - an unreproducible stall is not an observation of f1
+			p1, a1, b1 := stressPoolState()
+			time.Sleep(300 * time.Millisecond)
+			p2, a2, b2 := stressPoolState()
+			stuck := b1 < nworkers && b2 < nworkers && b1 == b2 && ((p1 > 0 && p2 > 0) || (a1 < nworkers && a2 < nworkers))
+			if stuck {
+				ok = false
+				tr.Cfg.Args += fmt.Sprintf(" stuck: %d/%d workers parked in waitForNewJobs, %d/%d worker goroutines alive, %d/%d bodies executing", p2, nworkers, a2, nworkers, b2, nworkers)
+			} else {
+				tr.Cfg.Args += fmt.Sprintf(" (round %d inconclusive: parked=%d,%d alive=%d,%d bodies=%d,%d)", rounds+1, p1, p2, a1, a2, b1, b2)
+				deadline = time.Now() // end the trace here
+				mu.Lock()
+				select {
+				case <-gate:
+				default:
+					close(gate) // let the bodies of the abandoned round go
+				}
+				mu.Unlock()
+			}
 		}
 		for k := c.rng.Intn(200); k > 0; k-- { // 0-few microseconds before the next tick
 			_ = k
